@@ -128,11 +128,20 @@ def budget_cases(ctx, world, clock, n):
     from deep.api.tracepoint.trigger import LocationAction, Trigger, LineLocation, Location
     rng = ctx.rng
     lits, cj = [], []
+    snapshot_world, metric_world = world, e2.World(logger=False, spans=0, metrics=1)
     for _ in range(n):
         count = rng.choice(["1", "2", "3", "-1"])
         period = rng.choice(["0", "0", "1"])
-        action = LocationAction("tp", "f()", {"fire_count": count, "fire_period": period, "frame_type": "no_frame", "watches": []},
-                                LocationAction.ActionType.Snapshot)
+        as_metric = rng.random() < 0.3          # the gate is the same for every kind of action: also a metric tracepoint obeys its condition
+        if as_metric:
+            from deep.api.tracepoint.tracepoint_config import MetricDefinition
+            world = metric_world
+            action = LocationAction("tp", "f()", {"fire_count": count, "fire_period": period, "metrics": [MetricDefinition("hits", "COUNTER")]},
+                                    LocationAction.ActionType.Metric)
+        else:
+            world = snapshot_world
+            action = LocationAction("tp", "f()", {"fire_count": count, "fire_period": period, "frame_type": "no_frame", "watches": []},
+                                    LocationAction.ActionType.Snapshot)
         world.install([Trigger(LineLocation("m.py", 7, Location.Position.START), [action])])
         world.push.snapshots.clear()
         t = e2.BASE_NS
@@ -142,11 +151,12 @@ def budget_cases(ctx, world, clock, n):
             t += rng.choice([1, 1000, 2_000_000])
             f, lit, j = outcome(rng) if rng.random() < 0.75 else ((lambda: True), "(EVal %s)" % L.s("True"), dict(value="True"))
             clock.now = t
-            before = len(world.push.snapshots)
+            effects = lambda: len(world.push.snapshots) + len([1 for w_, _t, _i, _p in world.log if w_ == "metric"])
+            before = effects()
             _, exc = world.event(e2.mk_frame("/app/m.py", "g", 7, {"f": f}), "line")
             if exc is not None:
                 ctx.fail("the handler raised %r" % (exc,), j, tag="raised")
-            obs.append(len(world.push.snapshots) > before)
+            obs.append(effects() > before)
             hits.append("(%s, %s)" % (L.z(t), lit))
             jh.append(j)
             # reference, from the statement: a hit collects exactly when the limits allow it and its condition evaluates to true;
@@ -160,7 +170,7 @@ def budget_cases(ctx, world, clock, n):
             if allowed and truth:
                 ref_n, ref_last = ref_n + 1, t
         cnt, _ = e2.stats_of(action)
-        j = dict(fire_count=count, fire_period=period, hits=jh, collected=obs, fires_recorded=cnt)
+        j = dict(fire_count=count, fire_period=period, hits=jh, collected=obs, fires_recorded=cnt, action="metric" if as_metric else "snapshot")
         ctx.case(j, nontrivial=any("raises" in h for h in jh) and any(obs), bucket="budget count=%s" % count)
         # oracle: rejected hits use no budget -> fires recorded == collections; failing conditions never collect
         if obs != want:
